@@ -68,6 +68,8 @@ type Ctx struct {
 	ReplayDir string
 	Scratch   string
 	seenSig   map[string]int
+	seenClass map[string]int
+	minimised int
 	MaxRuns   int
 	startWall time.Time
 }
@@ -308,7 +310,7 @@ func TestVerif(t *testing.T) {
 		T: t, Property: res.Property, Harness: h, Mode: res.Mode, Tier: res.Tier, Seed: res.Seed,
 		Worker: res.Worker, Workers: int(envInt("VERIF_WORKERS", 1)),
 		Deadline: time.Now().Add(budget), Res: res, distinct: map[uint64]struct{}{},
-		ReplayDir: os.Getenv("VERIF_REPLAY_DIR"), Scratch: scratch, seenSig: map[string]int{},
+		ReplayDir: os.Getenv("VERIF_REPLAY_DIR"), Scratch: scratch, seenSig: map[string]int{}, seenClass: map[string]int{},
 		MaxRuns: int(envInt("VERIF_MAX_RUNS", 0)), startWall: time.Now(),
 	}
 	if c.ReplayDir == "" {
